@@ -64,4 +64,29 @@ inductive Merged (env : Env) (par : Node) (k : Key) : Option Node → Node → O
       mergeVal env lv ⟨rv, some par, some (.key k)⟩ rv = .ok m →
       Merged env par k (some lv) rv (some m)
 
+/-- One right-hand record `{es}` under AoH DEEP with identity key `idKey`, as a relation between the
+left-hand list before and after: the record must carry the identity key; when no left-hand element
+carries the same identity (`recordMatches`: `==` after `typed_value`) the record is appended;
+otherwise the **first** such element `lh` is replaced, in place, by the deep hash merge of the record
+into it (`mergeDicts`, characterised per key by `merge_content_eq_spec`), which must succeed. -/
+inductive AohStep (env : Env) (idKey : Key) (litems : List Node) (a : Option Str)
+    (es : List (Key × Node)) : List Node → Prop
+  | append (idv : Node) : lookupKey idKey es = some idv →
+      (∀ x ∈ litems, recordMatches env idKey (typedNode env idv) x = false) →
+      AohStep env idKey litems a es (litems ++ [.map a es])
+  | merge (idv : Node) (pre : List Node) (lh : Node) (post : List Node) (m : Node) :
+      lookupKey idKey es = some idv → litems = pre ++ lh :: post →
+      (∀ x ∈ pre, recordMatches env idKey (typedNode env idv) x = false) →
+      recordMatches env idKey (typedNode env idv) lh = true →
+      mergeDicts env lh (.map a es) es = .ok m →
+      AohStep env idKey litems a es (pre ++ m :: post)
+
+/-- AoH DEEP: the right-hand records are taken one after the other (`AohStep`), each against the
+list as the previous ones left it. -/
+inductive AohDeep (env : Env) (idKey : Key) : List Node → List Node → List Node → Prop
+  | nil (l : List Node) : AohDeep env idKey l [] l
+  | cons (l l1 out : List Node) (a : Option Str) (es : List (Key × Node)) (rest : List Node) :
+      AohStep env idKey l a es l1 → AohDeep env idKey l1 rest out →
+      AohDeep env idKey l (.map a es :: rest) out
+
 end Ypv.Merge.Spec
